@@ -420,10 +420,13 @@ func (b *Broker) handle(inc *Inc, e *Entry) {
 			inc.Send(&message.UpstreamResumeResponse{RequestID: m.RequestID, ResultCode: message.ResultCodeStreamNotFound, ResultString: "no such stream"})
 			return
 		}
+		b.mu.Lock() // HandleDefault may run on several goroutines (delayed answers)
 		inc.resumeUp[m.StreamID]++
+		attempt := inc.resumeUp[m.StreamID]
+		b.mu.Unlock()
 		rc := message.ResultCodeSucceeded
 		if b.UpResumeResult != nil {
-			rc = b.UpResumeResult(inc, up, inc.resumeUp[m.StreamID])
+			rc = b.UpResumeResult(inc, up, attempt)
 		}
 		var alias uint32
 		if rc == message.ResultCodeSucceeded {
@@ -473,10 +476,13 @@ func (b *Broker) handle(inc *Inc, e *Entry) {
 			inc.Send(&message.DownstreamResumeResponse{RequestID: m.RequestID, ResultCode: message.ResultCodeStreamNotFound, ResultString: "no such stream"})
 			return
 		}
+		b.mu.Lock()
 		inc.resumeDn[m.StreamID]++
+		attemptDn := inc.resumeDn[m.StreamID]
+		b.mu.Unlock()
 		rc := message.ResultCodeSucceeded
 		if b.DownResumeResult != nil {
-			rc = b.DownResumeResult(inc, d, inc.resumeDn[m.StreamID])
+			rc = b.DownResumeResult(inc, d, attemptDn)
 		}
 		if rc == message.ResultCodeSucceeded {
 			b.mu.Lock()
